@@ -117,6 +117,15 @@ def http_vectors(rng: random.Random, tier_: str) -> list[dict[str, Any]]:
     # when it equals the global default of 1800 s, or taken from the stream - is the depth its media URLs are served with
     for q in ('depth=1800', '', 'depth=600', 'depth=1800&timeline=1'):
         add('hand_made.mpd', (q + '&' if q else '') + f'start={ast.strftime("%Y-%m-%dT%H:%M:%SZ")}', ast + sec(3600.5), 'sdef')
+    # event schedules that begin inside the window, off the segment grid: the segment that straddles the first event (and the
+    # ones before and after it) are advertised like any other, so they are served
+    asts = ast.strftime("%Y-%m-%dT%H:%M:%SZ")
+    for ev, st, el in (('ping', 1234, 31.0), ('scte35', 2050, 33.5), ('ping', 360123, 3615.25), ('ping', 801, 24.0),
+                       ('scte35', 1599, 29.999999)):
+        tl = rng.choice([0, 1])
+        add('hand_made.mpd', f'start={asts}&depth=30&events={ev}&{ev}__start={st}' + ('&timeline=1' if tl else ''), ast + sec(el))
+        if tier_ == 'thorough':
+            add('hand_made.mpd', f'start={asts}&depth=30&events={ev}&{ev}__start={st}&{ev}__interval=150' + ('' if tl else '&timeline=1'), ast + sec(el))
     # the default window (30 minutes): partial walk (oldest, newest and a sample in between)
     add('hand_made.mpd', '', day + sec(50000.5))
     add('hand_made.mpd', 'timeline=1', day + sec(50003.999999))
